@@ -329,7 +329,24 @@ func (c *Ctx) errBlocks(r *Report, pa *ssa.Function, facts *Facts) {
 			if l := c.cond(iff.Cond); !l.Pos {
 				succ = 1
 			}
-			q := &PathQ{c: c, Fn: fn, CutIn: c.isStoreTo(errField)}
+			recorded := func(x ssa.Instruction) bool {
+				if c.isStoreTo(errField)(x) {
+					return true
+				}
+				// in a helper extracted from ParseArgs the closure may hand the error back through a captured
+				// variable that the helper returns and ParseArgs stores
+				if st, ok := x.(*ssa.Store); ok && isErrorType(st.Val.Type()) {
+					if _, isFV := st.Addr.(*ssa.FreeVar); isFV && rootFn(fn) != pa && c.actsFor(rootFn(fn), pa) {
+						for _, s2 := range c.storesTo(errField) {
+							if s2.Fn == pa && strings.HasPrefix(c.term(s2.Store.Val), "cell:error") {
+								return true
+							}
+						}
+					}
+				}
+				return false
+			}
+			q := &PathQ{c: c, Fn: fn, CutIn: recorded}
 			path, found := q.Reach(Site{b.Succs[succ], 0}, 0, func(x ssa.Instruction) bool { _, isRet := x.(*ssa.Return); return isRet && x.Parent() == fn })
 			r.Check(!found, "MPT-defaults", c.fname(fn), "a failing default is recorded", c.ipos(iff), "non-nil error of clearDefault ⇒ store parseState.err on every path", "a default/env value that fails can leave no trace in parseState.err (the command then runs): "+pathStr(path))
 		}
